@@ -79,7 +79,7 @@ class Run(object):
 
     # ---------------------------------------------------------------- trace validation
     def judge(self, module, traces, tables=None, shards=None, canary_ids=(), describe=None,
-              timeout=3600, cfg_extra='', replay_of=None, xmx='3g', with_tables=True):
+              timeout=3600, cfg_extra='', replay_of=None, xmx='1500m', with_tables=True):
         """Have TLC judge traces.  canary_ids: ids of deliberately corrupted
         traces that MUST be rejected.  Returns verdicts."""
         verdicts, st = tlcrun.validate(module, traces, tables, shards=shards, timeout=timeout,
@@ -93,6 +93,9 @@ class Run(object):
             tid = tr['id']
             status, idx, why = verdicts[tid]
             if tid in canary_ids:
+                orig = verdicts.get(tr.get('canary_of'))
+                if orig is not None and orig[0] != 'ok':
+                    continue        # the trace it was derived from is not accepted itself: not a usable canary
                 self.canaries[0] += 1
                 if status == 'FAIL':
                     self.canaries[1] += 1
